@@ -10,11 +10,12 @@ from .lib.reachrule import ReachRule
 CONFIGS_QUICK = ["A"]
 CONFIGS_THOROUGH = ["A", "R", "ASYNCSTD", "SMOL", "NIO", "GLOMMIO", "NOAPI"]
 TECHNIQUE = "MIR call-graph reachability of panic/unsafe sinks from the request parser and accessors + guard audit; header/method literal tables; def-use of the read count"
-LEVEL_TEXT = ('Decides clauses C02-a/b/c/d: no panic sink and no unguarded unsafe operation is reachable from Request::read/read_payload (request line, headers, '
+LEVEL_TEXT = ('Decides clauses C02-a..e: no panic sink and no unguarded unsafe operation is reachable from Request::read/read_payload (request line, headers, '
               "Content-Length, body) or from the public request accessors (Path, Headers, Cookies) -- the accessors' UTF-8 expectations count as discharged only if "
               'Request::read validates the same bytes before storing them; the request header table is case-consistent and recognised case-insensitively (and answers'
               ' `custom header` only after every case-insensitive name comparison failed), Method::from_bytes/as_str are inverse; the byte count returned by the '
-              'first read bounds what is parsed. Decides these clauses, not the faithfulness of every parsed field for all byte strings.')
+              'first read bounds what is parsed; `Headers::get(name)` answers None only after the standard header table was consulted for the name. Decides these '
+              'clauses, not the faithfulness of every parsed field for all byte strings.')
 
 STOP = [r"^ohkami::response::", r"<impl ohkami::response::Response>", r"<ohkami::response::Response as "]
 
@@ -79,6 +80,7 @@ def run(ck, progs):
         if cfg == "A":
             ck.guard("C02-c TABLE", lambda: c02c(ck, prog))
         ck.guard("C02-d USED-RESULT", lambda: c02d(ck, prog))
+        ck.guard("C02-e MUSTPASS header lookup", lambda: c02e(ck, prog))
     ck.config = None
 
 
@@ -240,3 +242,33 @@ def places_in(r):
 
 def mentions_local(x, l):
     return any(p[0] == l for p in places_in(x))
+
+
+def c02e(ck, prog):
+    """`req.headers.get(name)` answers for standard and custom names alike: it may answer None only after the standard
+    table was consulted for the name (directly or in the fallback closure of an `or_else`-like combinator)."""
+    R = "C02-e MUSTPASS header lookup"
+    f = prog.one(r"^ohkami::request::headers::Headers::get$")
+    consult = set()
+    for c in f.calls():
+        if re.search(r"request::headers::Header::from_bytes$", c.callee or ""):
+            consult.add(c.bb)
+        for a in c.args:
+            st = f.origin(a)
+            if st and st[-1][0] == "agg" and st[-1][1][1].get("k") == "closure":
+                g = prog.fns.get(st[-1][1][1]["def"])
+                if g is not None and g.calls_to(r"request::headers::Header::from_bytes$"):
+                    consult.add(c.bb)
+    if not consult:
+        raise AnchorLost("Headers::get never consults Header::from_bytes")
+    n = 0
+    for bb, kind, _ in paths.ret_sites(f):
+        if kind not in ("None", "residual"):
+            continue
+        ok = any(f.dominates(cb, bb) for cb in consult)
+        ck.ob(R, "get:None-only-after-standard-lookup#%d" % n, ok, f.loc(f.blocks[bb]["t"].get("sp")),
+              "" if ok else "request Headers::get can answer None before the standard header table was consulted: a request without custom headers answers None for `get(\"User-Agent\")` "
+              "although the header is present (the same call answers Some as soon as any custom header is sent)",
+              how="the None answer is dominated by the standard-table lookup")
+        n += 1
+    ck.floor(R, "None answers of Headers::get", n, 1)
